@@ -257,10 +257,16 @@ export class RangeListManager {
         const item = items[i]!
         const index = indexes === null ? i : indexes[i]!
         const oldIndex = oldIndexes === null ? i : oldIndexes[i]!
-        const u =
-          updatePathTree === true || updatePathTree === undefined
-            ? updatePathTree
-            : (updatePathTree as { [key: string]: UpdatePathTreeNode })[index]
+        // for object lists, the field at this position may be another one than before
+        // (e.g. a field before it was removed), which means a whole new item for this node
+        let u: UpdatePathTreeRoot
+        if (index !== oldIndex) {
+          u = true
+        } else if (updatePathTree === true || updatePathTree === undefined) {
+          u = updatePathTree
+        } else {
+          u = (updatePathTree as { [key: string]: UpdatePathTreeNode })[index]
+        }
         updateListItem(
           item,
           index,
